@@ -35,7 +35,13 @@ func VerifC04Registry() {
 	if sameOwner {
 		ck2 = ck1
 	}
-	blob[0], blob[1] = cnrBlobOf("c1", verLen, o1, ck1), cnrBlobOf("c2", verLen, owner2, ck2)
+	// the version-field parameter + 100 asks for blobs that END with the owner ID (31 bytes when the version
+	// field is empty), the shortest blobs an owner can be taken from
+	tail := 8
+	if verLen >= 100 {
+		verLen, tail = verLen-100, 0
+	}
+	blob[0], blob[1] = cnrBlobTail("c1", verLen, o1, ck1, tail), cnrBlobTail("c2", verLen, owner2, ck2, tail)
 	vAssume(!vEq(blob[0], blob[1]))
 	id[0], id[1] = vSha256(blob[0]), vSha256(blob[1])
 	own[0], own[1] = ownerID(blob[0], verLen), ownerID(blob[1], verLen)
